@@ -51,8 +51,8 @@ def baseline_keys(prop):
 
 
 def eval_variant(prop, variant):
-    name, kind, edits = variant['name'], variant['kind'], variant['edits']
-    overlay = apply_edits(edits)
+    name, kind = variant['name'], variant['kind']
+    overlay = variant['overlay'] if 'overlay' in variant else apply_edits(variant['edits'])
     if overlay is None:
         return {'name': name, 'kind': kind, 'result': 'inapplicable'}
     try:
@@ -102,8 +102,27 @@ def explore(prop, seed=0, pool=None):
     }
 
 
+def autotwins(props):
+    """Every automatic twin of every module against every selected property."""
+    from . import autotwins as at
+    vs = at.variants()
+    jobs = [(p, v) for v in vs for p in props]
+    bad = []
+    t0 = time.time()
+    with ProcessPoolExecutor(max_workers=min(16, os.cpu_count() or 4)) as ex:
+        for p, r in ex.map(_job, jobs, chunksize=4):
+            if r['result'] not in ('silent', 'inapplicable'):
+                bad.append((p, r))
+    print('autotwins: %d twins x %d properties = %d runs, %d not silent (%.0fs)' % (len(vs), len(props), len(jobs), len(bad), time.time() - t0))
+    for p, r in bad:
+        print('   %s %s -> %s %s' % (p, r['name'], r['result'], r.get('findings') or r.get('error')))
+    return len(bad)
+
+
 def main(props, seed=0):
     from ..main import PROPS
+    if props and props[0] == 'auto':
+        return 1 if autotwins([p.upper() for p in props[1:]] or PROPS) else 0
     props = [p.upper() for p in props] or PROPS
     bad = 0
     for p in props:
